@@ -170,6 +170,22 @@ func ruleLoopShapes(keep func(string) bool, floorD4, floorD5 int) ruleFunc {
 									if id, ok := y.Fun.(*ast.Ident); ok && id.Name == "append" {
 										accum = true
 									}
+								case *ast.ExprStmt:
+									// a call made for its effect on shared state (add this member to the result)
+									if call, ok := y.X.(*ast.CallExpr); ok {
+										if id, ok := call.Fun.(*ast.Ident); !ok || (id.Name != "panic" && id.Name != "print" && id.Name != "println") {
+											accum = true
+										}
+									}
+								case *ast.IfStmt:
+									// if err := addX(result, member); err != nil { return err }
+									if as, ok := y.Init.(*ast.AssignStmt); ok && len(as.Rhs) == 1 {
+										if call, ok := as.Rhs[0].(*ast.CallExpr); ok && len(as.Lhs) == 1 {
+											if t := pkg.TypesInfo.TypeOf(call); t != nil && t.String() == "error" {
+												accum = true
+											}
+										}
+									}
 								case *ast.AssignStmt:
 									for _, l := range y.Lhs {
 										if ie, ok := l.(*ast.IndexExpr); ok {
